@@ -41,6 +41,7 @@ ASSUMPTIONS = [
     "an interruption is the loss of the client<->helper connection (both directions, all outstanding requests errback); the helper process keeps running or is restarted on the same directory after everything pending has settled; partial writes of the helper's incoming file are not modelled (file closed on failure)",
     "after an interruption the execution continues at the default schedule; schedule deviations and fault placement are bounded (d, f in coverage)",
 ]
+STAGGER_MAX = 60          # > number of scheduler steps of one helper upload of the files used (checked in coverage)
 CONV = b"c44-convergence"
 WRITE_METHS = ("allocate_buckets", "write", "close", "abort")
 
@@ -244,9 +245,23 @@ def concurrent(case, g, rig, ch, data, dref, href, counts, viol, obs):
     from twisted.internet import defer
     n = case["n"]
     rig.connect(0)
-    rig.connect(2)
-    ds = [g.clients[ci].upload(Data(data, convergence=CONV)) for ci in (0, 2)]
+    conn2 = rig.connect(2)
     log0 = len(g.sched.log)
+    stagger = case.get("stagger")
+    if stagger is None:
+        ds = [g.clients[ci].upload(Data(data, convergence=CONV)) for ci in (0, 2)]
+    else:
+        # client B arrives when client A's upload has made `stagger` scheduler steps, and is served as
+        # soon as it asks (its calls sort first): every arrival point of the second request relative
+        # to the first one's progress through the helper is a case of its own
+        ds = [g.clients[0].upload(Data(data, convergence=CONV))]
+        g.sched.explore = False
+        for _ in range(stagger):
+            if not g.sched.step():
+                break
+        obs["a_steps_before_b"] = len(g.sched.log) - log0
+        g.sched.priority = {conn2.key()}
+        ds.append(g.clients[2].upload(Data(data, convergence=CONV)))
     b = g.wait(defer.DeferredList(ds, consumeErrors=True), explore=True)
     g.quiesce()
     faulted = [lbl for (kd, lbl, o) in g.sched.log if kd.startswith("fault")]
@@ -390,6 +405,9 @@ def run(tier, seed):
     # two concurrent uploads have about three times as many choice points: one deviation less
     ccases = [dict(c, faults=False) for c in cases if c["pre"] == "concurrent"]
     res.merge(grid.split_tasks(common.pmap, chunk, ccases, (seed,), d_bound - 1, 0))
+    # the second client arrives after j steps of the first one's upload, for every j (default schedule otherwise)
+    scases = [dict(c, stagger=j) for c in ccases[: (1 if tier == "quick" else len(ccases))] for j in range(0, STAGGER_MAX)]
+    res.merge(grid.split_tasks(common.pmap, chunk, scases, (seed,), 0, 0))
     n_d = res.counts.get("executions", 0) - n_f
     mixed = [c for c in cases if c["size"] == 56 and (tier != "quick" or (c["resume"] == "reconnect" and c["pre"] != "concurrent"))]
     if tier != "quick":
